@@ -170,12 +170,12 @@ CLAIMED.update({
     "C02": dict(
         category="other",
         text=("Same harnesses as C01, the assertions tagged C02: between the start and end timestamp of a sample only benchmarked calls "
-              "happen (no generation, counting, drop or barrier wait), a full fence directly precedes and a compiler fence directly follows "
-              "the start read (mirrored at the end), on two threads each waits twice before its start and once after its end, and the "
+              "happen (no generation, counting, drop or barrier wait), there is exactly one start and one end timestamp per sample, and the "
               "allocation figures returned for the sample are exactly the tallies made inside the calls (generation and drops tally "
-              "different sizes and must not appear)."),
+              "different sizes and must not appear). Verus proves that SampleCollection::clear empties the allocation map as well as the timings, so that "
+              "the figures of discarded tuning samples cannot stay attached to the samples reported under the same indices."),
         note=ROUND_NOTE,
-        technique="bounded Kani harnesses with an online monitor (bounded stand-in)",
+        technique="bounded Kani harnesses with an online monitor (bounded stand-in); Verus contract on SampleCollection::clear",
         design_ref="5 C02"),
     "C08": dict(
         category="other",
